@@ -164,7 +164,7 @@ func loadForModule(module string, pkgs []string) (*program, error) {
 	if err != nil {
 		return nil, err
 	}
-	spec := loadSpec{Dir: filepath.Join(repoRoot, module), Patterns: pkgs, Overlay: ov}
+	spec := loadSpec{Dir: filepath.Join(repoRoot, moduleDir(module)), Patterns: pkgs, Overlay: ov}
 	p, err := loadProgram(spec, repoRoot)
 	if err != nil {
 		return nil, err
@@ -175,6 +175,10 @@ func loadForModule(module string, pkgs []string) (*program, error) {
 		"github.com/wI2L/jsondiff",
 		"context",
 		"errors",
+	}
+	if module == "serverreal" {
+		// the real server/mongodb code on the driver model (engine/mongo.go): option builders and BSON constructors are executed
+		p.interpSet = append(p.interpSet, "go.mongodb.org/mongo-driver/mongo/options")
 	}
 	p.pure = map[string]bool{
 		"(*github.com/orda-io/orda/client/pkg/model.Timestamp).Compare":   true,
@@ -199,11 +203,20 @@ func loadForModule(module string, pkgs []string) (*program, error) {
 // directory means: every .go file of the corresponding /repo directory that
 // the overlay does not provide is replaced by a bare package clause, so that
 // the directory consists of the overlay files only.
+// moduleDir: the /repo directory a harness module is laid over.  "serverreal" is
+// the server module with the real server/mongodb package (no storage stand-in).
+func moduleDir(module string) string {
+	if module == "serverreal" {
+		return "server"
+	}
+	return module
+}
+
 func buildOverlay(root, module string) (map[string]string, error) {
 	base := filepath.Join(root, "harness", module)
 	ov := map[string]string{}
 	// client harness files are visible to the server module too (server depends on client through a replace)
-	bases := []struct{ src, dst string }{{base, filepath.Join(repoRoot, module)}}
+	bases := []struct{ src, dst string }{{base, filepath.Join(repoRoot, moduleDir(module))}}
 	if module != "client" {
 		bases = append(bases, struct{ src, dst string }{filepath.Join(root, "harness", "client"), filepath.Join(repoRoot, "client")})
 	}
@@ -268,6 +281,18 @@ func buildOverlay(root, module string) (map[string]string, error) {
 				out[virt] = v
 			}
 		}
+	}
+	if module == "serverreal" {
+		// the storage stand-in of the service-level harnesses under its own import path,
+		// so that it can be compared with the real repository in one program
+		src := readFileString(filepath.Join(root, "harness", "server", "mongodb", "fake.go"))
+		src = strings.Replace(src, "package mongodb", "package vffake", 1)
+		os.MkdirAll(tmp, 0o755)
+		f := filepath.Join(tmp, "vffake_fake.go")
+		if err := os.WriteFile(f, []byte(src), 0o644); err != nil {
+			return nil, err
+		}
+		out[filepath.Join(repoRoot, "server", "vffake", "fake.go")] = f
 	}
 	return out, nil
 }
